@@ -605,8 +605,7 @@ class ClientHello(HelloMessage):
         self.session_id = session_id
         self.cipher_suites = cipher_suites
         self.compression_methods = [0]
-        if extensions is not None:
-            self.extensions = extensions
+        self.extensions = extensions
         if certificate_types is not None:
             self.certificate_types = certificate_types
         if srpUsername is not None:
@@ -639,6 +638,7 @@ class ClientHello(HelloMessage):
             self.compression_methods = [0]  # Fake this value
             p.stopLengthCheck()
         else:
+            self.extensions = None
             p.startLengthCheck(3)
             self.client_version = (p.get(1), p.get(1))
             self.random = p.getFixBytes(32)
